@@ -47,14 +47,32 @@ class Arg:
 
 
 class Skel:
+    """All skeletons are VALID formats by construction.  If the library refuses to build one (or fails while doing so) that is a finding about
+    the library, not about the harness: the failure is kept and raised from `.fmt`, i.e. inside the contract that uses the skeleton, where it
+    becomes an ordinary counterexample that is replayed and reported."""
+
     def __init__(self, name, opts, args, cmds=(), base=None, warm=()):
         self.name, self.opts, self.args, self.cmds, self.base = name, list(opts), list(args), list(cmds), base
         self.warm = list(warm)      # (skeleton, well-formed tokens) pairs: other formats of the same tree that were used before this one is
-        elements = [CommandName(n, list(al)) for n, al in self.cmds] + [o.build() for o in self.opts] + [a.build() for a in self.args]
-        self.fmt = ArgsFormat(elements, base.fmt if base else None)
+        self._fmt, self._build_error = None, None
+        try:
+            elements = [CommandName(n, list(al)) for n, al in self.cmds] + [o.build() for o in self.opts] + [a.build() for a in self.args]
+            self._fmt = ArgsFormat(elements, base.fmt if base else None)
+        except Exception as e:  # noqa
+            self._build_error = "%s: %s" % (type(e).__name__, e)
         self.all_opts = (base.all_opts if base else []) + self.opts
         self.all_args = (base.all_args if base else []) + self.args
         self.all_cmds = (base.all_cmds if base else []) + self.cmds
+
+    @property
+    def fmt(self):
+        if self._build_error is not None:
+            raise RuntimeError("building the valid format skeleton %s failed: %s" % (self.name, self._build_error))
+        return self._fmt
+
+    @fmt.setter
+    def fmt(self, value):
+        self._fmt = value
 
     def opt(self, long):
         return [o for o in self.all_opts if o.long == long][0]
@@ -79,7 +97,8 @@ MID9 = Skel("M9", [], [Arg("first", "req")], cmds=[("remote", ["rm"])], base=ROO
 LEAF9A = Skel("L9A", [], [Arg("name", "req"), Arg("extra", "opt")], cmds=[("add", ["a"])], base=MID9)
 S9 = Skel("S9", [], [Arg("target", "opt", "int")], cmds=[("remove", ["del"])], base=MID9, warm=[(LEAF9A, ["remote", "add", "x", "y", "z"])])
 S10 = Skel("S10", [], [Arg("first", "req")], cmds=[("remote", ["rm"])], base=ROOT9, warm=[(LEAF9A, ["remote", "add", "x", "y"])])
-S10.fmt = MID9.fmt           # the very format object the leaf is derived from
+if MID9._build_error is None:
+    S10.fmt = MID9.fmt       # the very format object the leaf is derived from
 SKELS_CHAIN = {"S9": S9, "S10": S10}
 SKELS_ALL = dict(SKELS)
 SKELS_ALL.update(SKELS_CHAIN)
